@@ -69,6 +69,7 @@ Record bus := mkBus {
   b_ram : store;      (* memory                     H'FFBF20-H'FFFF1F *)
   b_io2 : store;      (* io_registrs2               H'FFFF20-H'FFFFE9 *)
   b_pin : store;      (* io_port_in[0..10] *)
+  b_latch : store;    (* io_port_latch[0..10] *)
   b_sum : Z;          (* cpu_state_sum *)
   b_msgs : list msg;  (* everything sent so far, oldest first *)
   b_tmr : timer       (* the module manager's timer (reached through the bus on TCR writes) *)
@@ -104,15 +105,16 @@ Definition set_ssum (v : Z) (s : cpu) : cpu :=
 Definition set_console (v : list Z) (s : cpu) : cpu :=
   mkCpu (pc s) (opc s) (ccr s) (er s) (cbus s) (irq s) (exit_addr s) (ssum s) (ovf s) (sock s) v.
 
-Definition bset_vec v b := mkBus v (b_dram b) (b_io1 b) (b_ram b) (b_io2 b) (b_pin b) (b_sum b) (b_msgs b) (b_tmr b).
-Definition bset_dram v b := mkBus (b_vec b) v (b_io1 b) (b_ram b) (b_io2 b) (b_pin b) (b_sum b) (b_msgs b) (b_tmr b).
-Definition bset_io1 v b := mkBus (b_vec b) (b_dram b) v (b_ram b) (b_io2 b) (b_pin b) (b_sum b) (b_msgs b) (b_tmr b).
-Definition bset_ram v b := mkBus (b_vec b) (b_dram b) (b_io1 b) v (b_io2 b) (b_pin b) (b_sum b) (b_msgs b) (b_tmr b).
-Definition bset_io2 v b := mkBus (b_vec b) (b_dram b) (b_io1 b) (b_ram b) v (b_pin b) (b_sum b) (b_msgs b) (b_tmr b).
-Definition bset_pin v b := mkBus (b_vec b) (b_dram b) (b_io1 b) (b_ram b) (b_io2 b) v (b_sum b) (b_msgs b) (b_tmr b).
-Definition bset_sum v b := mkBus (b_vec b) (b_dram b) (b_io1 b) (b_ram b) (b_io2 b) (b_pin b) v (b_msgs b) (b_tmr b).
-Definition bset_msgs v b := mkBus (b_vec b) (b_dram b) (b_io1 b) (b_ram b) (b_io2 b) (b_pin b) (b_sum b) v (b_tmr b).
-Definition bset_tmr v b := mkBus (b_vec b) (b_dram b) (b_io1 b) (b_ram b) (b_io2 b) (b_pin b) (b_sum b) (b_msgs b) v.
+Definition bset_vec v b := mkBus v (b_dram b) (b_io1 b) (b_ram b) (b_io2 b) (b_pin b) (b_latch b) (b_sum b) (b_msgs b) (b_tmr b).
+Definition bset_dram v b := mkBus (b_vec b) v (b_io1 b) (b_ram b) (b_io2 b) (b_pin b) (b_latch b) (b_sum b) (b_msgs b) (b_tmr b).
+Definition bset_io1 v b := mkBus (b_vec b) (b_dram b) v (b_ram b) (b_io2 b) (b_pin b) (b_latch b) (b_sum b) (b_msgs b) (b_tmr b).
+Definition bset_ram v b := mkBus (b_vec b) (b_dram b) (b_io1 b) v (b_io2 b) (b_pin b) (b_latch b) (b_sum b) (b_msgs b) (b_tmr b).
+Definition bset_io2 v b := mkBus (b_vec b) (b_dram b) (b_io1 b) (b_ram b) v (b_pin b) (b_latch b) (b_sum b) (b_msgs b) (b_tmr b).
+Definition bset_pin v b := mkBus (b_vec b) (b_dram b) (b_io1 b) (b_ram b) (b_io2 b) v (b_latch b) (b_sum b) (b_msgs b) (b_tmr b).
+Definition bset_latch v b := mkBus (b_vec b) (b_dram b) (b_io1 b) (b_ram b) (b_io2 b) (b_pin b) v (b_sum b) (b_msgs b) (b_tmr b).
+Definition bset_sum v b := mkBus (b_vec b) (b_dram b) (b_io1 b) (b_ram b) (b_io2 b) (b_pin b) (b_latch b) v (b_msgs b) (b_tmr b).
+Definition bset_msgs v b := mkBus (b_vec b) (b_dram b) (b_io1 b) (b_ram b) (b_io2 b) (b_pin b) (b_latch b) (b_sum b) v (b_tmr b).
+Definition bset_tmr v b := mkBus (b_vec b) (b_dram b) (b_io1 b) (b_ram b) (b_io2 b) (b_pin b) (b_latch b) (b_sum b) (b_msgs b) v.
 
 (* ---------- outcomes ---------- *)
 Inductive outcome (A : Type) :=
